@@ -481,7 +481,9 @@ def rule_E1(ctx, repo, eng):
         if fi.qualname in allowed_raw:
             r.ok(key, common.site_of(fi, c), 'allowed raw read (inside ser_read / the padding probe)')
         else:
-            r.violated(key, common.site_of(fi, c), 'raw `%s` bypasses ser_read: a short read is not reported as SerializationTruncationError' % norm(c))
+            # a read straight from the stream parameter of a deserialiser is a fact about that call, whatever else was rewritten
+            direct = fi.name in ('stream_deserialize', 'msg_deser') and c.func.value.id in fi.params and not common.catching_handler(repo, fi, c, 'builtins.Exception')
+            r.violated(key, common.site_of(fi, c), 'raw `%s` bypasses ser_read: a short read is not reported as SerializationTruncationError' % norm(c), sure=bool(direct))
     common.rule_ser_read_body(r, repo)
     for fi, c, fmt, nv, why in common.unpack_read_sites(repo, eng, CORE_FILES):
         key = 'calcsize:%s:%s' % (fi.qualname.replace('bitcoin.core.', ''), norm(c)[:60])
